@@ -11,5 +11,5 @@ def iter_kind(kind):
         ITER_NEXT[kind] = fn; return fn
     return deco
 def all_models():
-    from . import core, num, strings, coll, fmt, tree, logosrt, env   # noqa: F401  (registration by import)
+    from . import core, num, strings, coll, fmt, tree, logosrt, env, serde   # noqa: F401  (registration by import)
     return M
